@@ -18,7 +18,7 @@ func init() {
 		Explanation: "Decides the cleanup and error-propagation mechanism, not behaviour under injected faults: R1 after every successful os.CreateTemp each path to the function's exit registers the file (FILES_TMPNAMES / BodyBuffer.writer) or removes it (path query from the success edge); " +
 			"R2 BodyBuffer.Reset reaches os.Remove on every path where a spill file exists, and Transaction.Close removes every registered upload file in a loop without early exit, skipped only by the keep-files setting, and resets both buffers on all paths; " +
 			"R3 in the file-system call graph (body buffer, multipart processor, audit writers, Close, body processing) no call result of type error is dropped (never extracted or never referenced) outside a reasoned allowlist, a tolerated parse error is recognised exactly (sentinel or equality of its message, never a prefix/substring test), an error handed from a callback to its enclosing function is examined where it arises (not overwritten by the next element), a request-body processor failure is reported through the error variables and the interruption, not additionally as an API error, Close reports the collected errors, and the spill-file reader returns the ReadAt error unchanged; " +
-			"R4 a body-processor failure sets the error variables and still evaluates the body phase on every path, and an audit-write failure reaches the error log.",
+			"R4 a body-processor failure sets the error variables and still evaluates the body phase on every path, and an audit-write failure reaches the error log. R2 also: the RelevantOnly upload-retention predicate consults MatchedRule.Log only. R3 also: the audit-log writers store the field Write takes as \"initialised\" only once Init can no longer fail, and after every pointer field Write dereferences.",
 		NotDecided: []string{
 			"behaviour under injected file-system faults as such",
 			"that error values are meaningful; only that they are not dropped",
